@@ -314,17 +314,34 @@ fn replay(args: &Args) {
             kept.push((id, keep));
         }
     });
+    // at most ANOM_CAP logged calls per (api, panic location): a gross defect must not produce
+    // a trace of millions of events (all of them are still counted)
+    const ANOM_CAP: usize = 300;
+    let mut seen_anom = std::collections::HashMap::<(String, String), usize>::new();
     kept.sort_by_key(|x| x.0);
     for (id, outs) in &kept {
         for o in outs {
+            if o[1].as_i64().unwrap_or(0) < 0 {
+                let c = seen_anom.entry((o[0].as_str().unwrap_or("").to_string(), o[4].as_str().unwrap_or("").to_string())).or_insert(0);
+                *c += 1;
+                if *c > ANOM_CAP {
+                    continue;
+                }
+            }
             emit_pair(&mut tr, *id, items[*id].prog.len(), o);
         }
     }
     let n = tr.finish();
     anomalies.sort_by_key(|x| x.0);
+    let mut seen_anom = std::collections::HashMap::<(String, String), usize>::new();
     if let Some(p) = args.kv.get("anomalies") {
         let mut t = Trace::create(p);
         for (_, a) in anomalies {
+            let c = seen_anom.entry((a["api"].as_str().unwrap_or("").to_string(), a["loc"].as_str().unwrap_or("").to_string())).or_insert(0);
+            *c += 1;
+            if *c > ANOM_CAP {
+                continue;
+            }
             t.emit(a);
         }
         t.finish();
@@ -367,11 +384,26 @@ fn cli_stage(args: &Args) {
     jqx.truncate(max * 3 / 4);
     soup.truncate(max - jqx.len().min(max));
     jqx.extend(soup);
+    // programs that crashed in-process are always tried through the CLI as well
+    if let Some(p) = args.kv.get("also") {
+        if std::path::Path::new(p).exists() {
+            let mut seen = std::collections::BTreeSet::new();
+            for a in read_ndjson(p) {
+                if let (Some(pr), Some(inp)) = (a["prog"].as_str(), a["input"].as_str()) {
+                    if matches!(a["kind"].as_str(), Some("panic") | Some("abort")) && seen.len() < 60 && seen.insert(pr.to_string()) {
+                        jqx.push(Item { src: 0, prog: pr.to_string(), input: inp.to_string(), soup: false });
+                    }
+                }
+            }
+        }
+    }
     let mut stats = [0u64; 4];
     let mut anomalies = vec![];
-    for (id, it) in jqx.iter().enumerate() {
+    let results = par_map(&jqx, args.u64("threads", 4) as usize, |_, it| {
         let argv: Vec<String> = vec!["jq".into(), "-c".into(), "--".into(), it.prog.clone()];
-        let (kind, code, tail, outlen) = run_cli(&cli, &argv, it.input.as_bytes(), to);
+        run_cli(&cli, &argv, it.input.as_bytes(), to)
+    });
+    for (id, (it, (kind, code, tail, outlen))) in jqx.iter().zip(results).enumerate() {
         let api = "cli:jq -c PROG";
         let (r, m): (i64, i64) = match kind.as_str() {
             "timeout" => {
